@@ -1,9 +1,4 @@
-#[macro_use]
-mod engine;
-mod agraph;
-mod gmodel;
-mod props;
-mod util;
+use pgcheck::{engine, props};
 
 use engine::Tier;
 use std::path::Path;
